@@ -186,6 +186,8 @@ class SerialSim:
         self.protocol = None
         self.transport = None
         self.latencies = []      # scripted unit draws in [0, 1), consumed in order; default 0.5
+        self.coalesce = []       # scripted booleans, consumed in order: merge the next chunk into this read?
+        self.coalesced = 0
         self.gw = LubaGateway(self) if kind == "luba" else SciGateway(self)
         self._saved = sermod.serial_asyncio
         sermod.serial_asyncio = FakeSerialAsyncio(self)
@@ -196,6 +198,8 @@ class SerialSim:
         self.tasks = []
         self.delivered = []
         self.connect_task = None
+
+    COALESCE_WINDOW = 0.016
 
     def latency(self, name):
         lo, hi = self.LAT[name]
@@ -232,6 +236,14 @@ class SerialSim:
         if not self.gw.pending or self.protocol is None:
             return False
         due, chunk = self.gw.pending.pop(0)
+        # a USB-serial adapter / the tty layer hands over whatever accumulated since the last read: frames that
+        # follow each other within its latency timer (FTDI default 16 ms) may arrive in ONE data_received call
+        while self.coalesce and self.gw.pending and self.gw.pending[0][0] - due <= self.COALESCE_WINDOW:
+            if not self.coalesce.pop(0):
+                break
+            d2, c2 = self.gw.pending.pop(0)
+            due, chunk = max(due, d2), chunk + c2
+            self.coalesced += 1
         if due > self.loop.time():
             self.loop.advance(due - self.loop.time())
         self.delivered.append((self.loop.time(), chunk))
